@@ -208,6 +208,37 @@ def run_case(case, workdir):
                         rec.fail("cli_failed", sub, "%r" % (st,))
                     elif not (abs(val - exp) <= tol + 1e-15):
                         rec.fail("cli_integral", sub, "printed %r, sum over uncovered cells %r" % (val, exp))
+    # LAST: a reader that is kept (opened with the per-box minima / maxima of the level headers, as marinate pickles it) while
+    # another time step of the same run is written over the plotfile in place; a field that is uniform in every box of the FIRST
+    # step - the integral is over what the plotfile holds now
+    from ..refmodel import write_plotfile as _wp
+    import shutil as _sh
+    dA = dict(desc, fields=["u", "temp"], payload=["one", "signed"])
+    dB = dict(dA, seed=desc.get("seed", 0) + 778, payload=["signed", "pos"])
+    pA = os.path.join(workdir, "plt_kept_reader")
+    _wp(dA, pA)
+    refB = _wp(dB, os.path.join(workdir, "plt_next_step"))
+    with vpool.controlled():
+        st, val = call(lambda: PlotfileCooker(pA, ghost=True, maxmins=True))
+    if st != "exc":
+        old_reader = val
+        for root_, dirs_, files_ in os.walk(os.path.join(workdir, "plt_next_step")):
+            for fn_ in files_:
+                src_ = os.path.join(root_, fn_)
+                with open(src_, "rb") as fi, open(os.path.join(pA, os.path.relpath(src_, os.path.join(workdir, "plt_next_step"))), "wb") as fo:
+                    fo.write(fi.read())
+        for field in ("u", "temp"):
+            for lim in (None, 0):
+                L = nlev - 1 if lim is None else lim
+                exp, mag = refB.integral(field, L, None)
+                with vpool.controlled():
+                    st, val = call(lambda: volume_integral(old_reader, field, limit_level=lim))
+                rec.exe([dh, "time_step_replaced", field, lim], nontrivial=True, trans=2)
+                sub = {"history": "reader opened (with min / max tables), then another time step written over the plotfile in place", "field": field, "limit_level": lim}
+                if st == "exc":
+                    rec.fail("history_raised", sub, exc_text(val))
+                elif not (abs(float(val) - exp) <= 64 * EPS * mag + 1e-300):
+                    rec.fail("history_dependent", sub, "returned %r, the plotfile now integrates to %r" % (float(val), exp))
     rec.sample({"desc": desc, "ops": "volume_integral x field x volfrac x limit (reader / argument / CLI)"})
     return rec.result()
 
